@@ -127,6 +127,64 @@ fn main() {
             };
             std::fs::write(&args[3], serde_json::to_string_pretty(&rep).unwrap()).unwrap();
         }
+        "fuzz-artifact" => {
+            // fuzz-artifact <text|prog> <prop> <file>: re-evaluate a libFuzzer artifact in the normal build
+            let prop = props::by_id(&args[2]).unwrap_or_else(|| usage());
+            let data = std::fs::read(&args[3]).unwrap_or_default();
+            let case = if args[1] == "text" { vf::fuzz::decode_text(&data, prop.id()) } else { vf::fuzz::decode_prog(&data, prop) };
+            let Some(case) = case else { exit(0) };
+            let mut ctx = Ctx::default();
+            match eval(prop, &case, &mut ctx) {
+                Outcome::Fail(f) => {
+                    let fnd = findings::Findings::load();
+                    if let Some(k) = fnd.matching(prop.id(), &f.facts) {
+                        println!("artifact {} matches known finding {}", args[3], k.id);
+                        exit(0);
+                    }
+                    let p = write_replay(prop.id(), &case, &f, Some(&data), "fuzz", 0, Tier::Thorough, false);
+                    println!("VIOLATION property={} replay={}", prop.id(), p);
+                    println!("  [{}] {}", f.clause, short(&f.message, 500));
+                    exit(1)
+                }
+                _ => {
+                    println!("artifact {} does not fail in the normal build (sanitizer-only finding?)", args[3]);
+                    exit(3)
+                }
+            }
+        }
+        "fuzz-seed-corpus" => {
+            // fuzz-seed-corpus <text|prog> <dir>: a few small valid inputs from the repository's tests
+            std::fs::create_dir_all(&args[2]).unwrap();
+            if args[1] == "text" {
+                for (i, (_, text)) in vf::gen::seeds::texts().iter().enumerate().filter(|(i, _)| i % 40 == 0) {
+                    let mut v = vec![0u8; 8];
+                    v.extend_from_slice(text.as_bytes());
+                    v.truncate(1000);
+                    std::fs::write(format!("{}/seed{i}", args[2]), v).unwrap();
+                }
+            } else {
+                for i in 0..24u32 {
+                    let v: Vec<u8> = (0..400u32).map(|k| ((k * 2654435761u32.wrapping_mul(i + 1)) >> 13) as u8).collect();
+                    std::fs::write(format!("{}/tape{i}", args[2]), v).unwrap();
+                }
+            }
+        }
+        "fuzz-evidence" => {
+            // fuzz-evidence <prop> <target> <executed units> <seconds> <crashes>: merge campaign numbers into the evidence file
+            let path = format!("{}/evidence/{}.json", findings::root(), args[1]);
+            let mut ev: serde_json::Value = serde_json::from_str(&std::fs::read_to_string(&path).unwrap_or_default()).unwrap_or(serde_json::json!({}));
+            let units: u64 = args[3].parse().unwrap_or(0);
+            if let Some(cov) = ev.get_mut("coverage") {
+                cov["libfuzzer"] = serde_json::json!({
+                    "target": args[2], "executed_units": units, "seconds": args[4].parse::<f64>().unwrap_or(0.0),
+                    "artifacts": args[5].parse::<u64>().unwrap_or(0),
+                    "note": "coverage-guided campaign (libFuzzer, ASan, debug assertions) with the property's oracle inside the target; a wall-clock budget, so inconclusive beyond the executed units"
+                });
+                let e = cov["evaluations"].as_u64().unwrap_or(0);
+                cov["evaluations"] = serde_json::json!(e + units);
+            }
+            std::fs::write(&path, serde_json::to_string_pretty(&ev).unwrap()).unwrap();
+        }
         "fuzz-corpus" => {
             // fuzz-corpus <text|prog> <dir>: run the in-target oracle over saved inputs (timing / replay aid)
             std::env::set_var("VERIF_FUZZ_PROP", args.get(3).cloned().unwrap_or_else(|| "C01".into()));
